@@ -9,14 +9,13 @@ Record c15_case := {
   c_mapping : mapping; c_prog : list stmt;
   o_gripper : outcome; o_store : outcome;
   o_writes : list string;          (* write calls that were NOT refused *)
-  o_failed : bool }.
+  o_failed : bool;
+  c_extra : bool }.                (* the program has a null-producing move: compared with the embedded store as exact multisets *)
 
 Definition dup_edge_ids (m : mapping) : bool :=
   let ids := map ed_id (ge (materialise m)) in
   negb (Nat.eqb (List.length (nodup string_dec ids)) (List.length ids)).
 
-Definition agrees15 (c : c15_case) : bool :=
-  negb (o_failed c) && agrees {| cgraph := materialise (c_mapping c); cprog := c_prog c; cobs := o_gripper c |}.
 (* the property on the observations: the gripper graph answers like the embedded store holding the materialised
    graph (where the store can hold it: no two link rows with the same endpoints), and refuses writes *)
 Definition same_rows (a b : outcome) (p : list stmt) : bool :=
@@ -27,8 +26,13 @@ Definition same_rows (a b : outcome) (p : list stmt) : bool :=
   end.
 Definition spec_ok (c : c15_case) : bool :=
   negb (o_failed c) && match o_writes c with [] => true | _ => false end
-  && (dup_edge_ids (c_mapping c) || same_rows (o_gripper c) (o_store c) (c_prog c)).
+  && (dup_edge_ids (c_mapping c) ||
+      (if c_extra c
+       then match o_gripper c, o_store c with Rejected, Rejected => true | Rows x, Rows y => multiset_eqb x y | _, _ => false end
+       else same_rows (o_gripper c) (o_store c) (c_prog c))).
 
+Definition model_case (c : c15_case) : c01_case := {| cgraph := materialise (c_mapping c); cprog := c_prog c; cobs := o_gripper c |}.
+Definition agrees15 (c : c15_case) : bool := negb (o_failed c) && agrees (model_case c).
 Definition mismatches (cs : list c15_case) := idx_where (fun c => negb (agrees15 c)) 0 cs.
 Definition spec_violations (cs : list c15_case) := idx_where (fun c => negb (spec_ok c)) 0 cs.
 Definition explain (c : c15_case) :=
